@@ -79,4 +79,226 @@ Proof.
   - rewrite (Hn y (or_introl eq_refl)) in H. eapply IH; [exact H|]. intros z Hz. apply Hn. right. exact Hz.
 Qed.
 
+
+(** ** a nullable expression is never classified as "must consume" *)
+Lemma nullable_not_mc : forall n path e, fst (chk n path e) = true -> nullable e -> False.
+Proof.
+  induction n as [n IHn] using lt_wf_ind. intros path e.
+  induction e using expr_ind2; rewrite chk_eq; intros Hc Hn; inv Hn; cbn [fst] in Hc; try discriminate.
+  - (* EName, defined *)
+    match goal with H : lookup_def g r = Some _ |- _ => rewrite H in Hc end.
+    destruct (memb r path); [discriminate|]. destruct n as [|n']; [discriminate|].
+    eapply (IHn n'); eauto.
+  - match goal with H : lookup_def g r = None |- _ => rewrite H in Hc end. discriminate.
+  - (* ESeq *)
+    destruct (seq_go_fst _ _ _ Hc) as (x & Hx & Ex).
+    rewrite Forall_forall in H. eapply H; eauto.
+    match goal with H : Forall nullable es |- _ => rewrite Forall_forall in H; apply H; exact Hx end.
+  - (* EAlt *)
+    destruct (alt_fold_fst _ _ _ Hc) as [_ B]. rewrite Forall_forall in H. eapply H; eauto.
+  - eauto.
+  - eauto.
+Qed.
+
+(** ** bookkeeping of a run *)
+Definition fuel_ok (n : nat) (path : list nat) : Prop :=
+  NoDup path /\ (forall m, In m path -> In m (map fst g)) /\ S (length g) <= length path + n.
+
+Fixpoint chain (path : list nat) : Prop :=
+  match path with
+  | p0 :: ((p1 :: _) as rest) => hstep p1 p0 /\ chain rest
+  | _ => True
+  end.
+
+Definition at_head (path : list nat) (e : expr) : Prop :=
+  match path with
+  | [] => True
+  | p0 :: _ => exists b, lookup_def g p0 = Some b /\ hsub b e
+  end.
+
+Definition cyc : Prop := exists r, clos_trans nat hstep r r.
+
+Lemma lookup_in m b : lookup_def g m = Some b -> In m (map fst g).
+Proof.
+  induction g as [|[k x] l IH]; cbn [lookup_def map fst]; [discriminate|].
+  destruct (Nat.eqb_spec m k) as [->|Hne]; [left; reflexivity|]. intros H. right. apply IH. exact H.
+Qed.
+Lemma in_lookup m : In m (map fst g) -> exists b, lookup_def g m = Some b.
+Proof.
+  induction g as [|[k x] l IH]; cbn [lookup_def map fst]; [intros []|].
+  destruct (Nat.eqb_spec m k) as [->|Hne]; [eexists; reflexivity|]. intros [E|H]; [congruence|]. apply IH. exact H.
+Qed.
+
+Lemma memb_in x l : memb x l = true <-> In x l.
+Proof.
+  unfold memb. rewrite existsb_exists. split.
+  - intros (y & Hy & E). apply Nat.eqb_eq in E. subst. exact Hy.
+  - intros H. exists x. split; [exact H|apply Nat.eqb_refl].
+Qed.
+
+Lemma fuel_step n path m b : fuel_ok n path -> memb m path = false -> lookup_def g m = Some b ->
+  exists n', n = S n' /\ fuel_ok n' (m :: path).
+Proof.
+  intros (Hnd & Hin & Hlen) Hm Hb.
+  assert (Hnot : ~ In m path) by (intros Hi; apply memb_in in Hi; congruence).
+  assert (Hnd' : NoDup (m :: path)) by (constructor; auto).
+  assert (Hin' : forall k, In k (m :: path) -> In k (map fst g)).
+  { intros k [<-|Hk]; [eapply lookup_in; eauto|auto]. }
+  pose proof (NoDup_incl_length Hnd' Hin') as L. rewrite map_length in L. cbn [length] in L.
+  destruct n as [|n']; [lia|]. exists n'. split; [reflexivity|]. split; [exact Hnd'|]. split; [exact Hin'|]. cbn [length]. lia.
+Qed.
+
+Lemma chain_reach path : forall p0 rest, path = p0 :: rest -> chain path ->
+  forall m, In m path -> clos_refl_trans nat hstep m p0.
+Proof.
+  induction path as [|q path IH]; intros p0 rest E Hc m Hm; [discriminate|]. inv E.
+  destruct Hm as [<-|Hm]; [apply rt_refl|].
+  destruct rest as [|p1 rest']; [destruct Hm|]. cbn [chain] in Hc. destruct Hc as [Hs Hc].
+  eapply rt_trans; [eapply IH; eauto|]. apply rt_step. exact Hs.
+Qed.
+
+(** ** soundness: a warning points at a real cycle; without one, the verdict "may not consume" is exact *)
+Lemma chk_sound : forall n path e, fuel_ok n path -> chain path -> at_head path e ->
+  cyc \/ (snd (chk n path e) = [] /\ (fst (chk n path e) = false -> nullable e)).
+Proof.
+  induction n as [n IHn] using lt_wf_ind. intros path e.
+  induction e using expr_ind2; intros Hf Hch Hat; rewrite chk_eq; cbn [fst snd];
+    try (right; split; [reflexivity|intros _; constructor]; fail);
+    try (right; split; [reflexivity|discriminate]; fail).
+  - (* EName *)
+    destruct (lookup_def g r) as [b|] eqn:Eb; [|right; split; [reflexivity|intros _; apply nl_undef; exact Eb]].
+    destruct (memb r path) eqn:Em.
+    + left. apply memb_in in Em. destruct path as [|p0 rest]; [destruct Em|].
+      destruct Hat as (b0 & Hb0 & Hs). exists r.
+      apply clos_rt_t with p0; [eapply chain_reach; eauto|]. apply t_step. exists b0. auto.
+    + destruct (fuel_step _ _ _ _ Hf Em Eb) as (n' & -> & Hf').
+      destruct (IHn n' (Nat.lt_succ_diag_r _) (r :: path) b Hf') as [C|[W N]]; [| |left; exact C|].
+      * destruct path as [|p0 rest]; [exact I|]. cbn [chain]. split; [|exact Hch].
+        destruct Hat as (b0 & Hb0 & Hs). exists b0. auto.
+      * exists b. split; [exact Eb|apply hs_refl].
+      * right. split; [exact W|]. intros Hc. eapply nl_name; eauto.
+  - (* ESeq *)
+    assert (G : forall pre l w0, es = pre ++ l -> Forall nullable pre ->
+              cyc \/ (snd (seq_go (chk n path) l w0) = w0 /\ (fst (seq_go (chk n path) l w0) = false -> Forall nullable l))).
+    { intros pre l. revert pre. induction l as [|x l IHl]; intros pre w0 E Hpre; cbn [seq_go]; [right; split; [reflexivity|constructor]|].
+      assert (Hx : In x es) by (rewrite E; apply in_or_app; right; left; reflexivity).
+      rewrite Forall_forall in H.
+      destruct (H x Hx Hf Hch) as [C|[W N]]; [|left; exact C|].
+      { destruct path as [|p0 rest]; [exact I|]. destruct Hat as (b0 & Hb0 & Hs). exists b0. split; [exact Hb0|].
+        eapply hs_seq; [rewrite E in Hs; exact Hs|exact Hpre]. }
+      destruct (fst (chk n path x)) eqn:Ex.
+      - right. cbn [fst snd]. rewrite W, app_nil_r. split; [reflexivity|discriminate].
+      - rewrite W, app_nil_r. destruct (IHl (pre ++ [x]) w0) as [C|[W2 N2]]; [rewrite <- app_assoc; exact E| |left; exact C|].
+        + apply Forall_app. split; [exact Hpre|]. constructor; [apply N; reflexivity|constructor].
+        + right. split; [exact W2|]. intros Hc. constructor; [apply N; reflexivity|apply N2; exact Hc]. }
+    destruct (G [] es [] eq_refl (Forall_nil _)) as [C|[W N]]; [left; exact C|].
+    right. split; [exact W|]. intros Hc. apply nl_seq. apply N. exact Hc.
+  - (* EAlt *)
+    assert (G : forall l acc, (forall x, In x l -> In x es) ->
+              cyc \/ (snd (fold_left (alt_step (chk n path)) l acc) = snd acc /\
+                      (fst (fold_left (alt_step (chk n path)) l acc) = false -> fst acc = false \/ exists x, In x l /\ nullable x))).
+    { induction l as [|x l IHl]; intros acc Hsub; cbn [fold_left]; [right; split; [reflexivity|intros Hc; left; exact Hc]|].
+      rewrite Forall_forall in H.
+      destruct (H x (Hsub x (or_introl eq_refl)) Hf Hch) as [C|[W N]]; [|left; exact C|].
+      { destruct path as [|p0 rest]; [exact I|]. destruct Hat as (b0 & Hb0 & Hs). exists b0. split; [exact Hb0|].
+        eapply hs_alt; [exact Hs|]. apply Hsub. left. reflexivity. }
+      destruct (IHl (alt_step (chk n path) acc x)) as [C|[W2 N2]]; [intros y Hy; apply Hsub; right; exact Hy|left; exact C|].
+      right. split; [rewrite W2; unfold alt_step; cbn [snd]; rewrite W, app_nil_r; reflexivity|].
+      intros Hc. destruct (N2 Hc) as [A|(y & Hy & Ny)].
+      - unfold alt_step in A. cbn [fst] in A. apply andb_false_iff in A as [A|A]; [left; exact A|].
+        right. exists x. split; [left; reflexivity|apply N; exact A].
+      - right. exists y. split; [right; exact Hy|exact Ny]. }
+    destruct (G es (true, []) (fun x Hx => Hx)) as [C|[W N]]; [left; exact C|].
+    right. split; [exact W|]. intros Hc. destruct (N Hc) as [A|(x & Hx & Nx)]; [discriminate|]. eapply nl_alt; eauto.
+  - (* EAnd *)
+    destruct (IHe Hf Hch) as [C|[W _]]; [|left; exact C|right; split; [exact W|intros _; constructor]].
+    destruct path as [|p0 rest]; [exact I|]. destruct Hat as (b0 & Hb0 & Hs). exists b0. split; [exact Hb0|apply hs_and; exact Hs].
+  - destruct (IHe Hf Hch) as [C|[W _]]; [|left; exact C|right; split; [exact W|intros _; constructor]].
+    destruct path as [|p0 rest]; [exact I|]. destruct Hat as (b0 & Hb0 & Hs). exists b0. split; [exact Hb0|apply hs_not; exact Hs].
+  - destruct (IHe Hf Hch) as [C|[W _]]; [|left; exact C|right; split; [exact W|intros _; constructor]].
+    destruct path as [|p0 rest]; [exact I|]. destruct Hat as (b0 & Hb0 & Hs). exists b0. split; [exact Hb0|apply hs_query; exact Hs].
+  - destruct (IHe Hf Hch) as [C|[W _]]; [|left; exact C|right; split; [exact W|intros _; constructor]].
+    destruct path as [|p0 rest]; [exact I|]. destruct Hat as (b0 & Hb0 & Hs). exists b0. split; [exact Hb0|apply hs_star; exact Hs].
+  - (* EPlus *)
+    destruct (IHe Hf Hch) as [C|[W N]]; [|left; exact C|right; split; [exact W|intros Hc; constructor; apply N; exact Hc]].
+    destruct path as [|p0 rest]; [exact I|]. destruct Hat as (b0 & Hb0 & Hs). exists b0. split; [exact Hb0|apply hs_plus; exact Hs].
+  - destruct (IHe Hf Hch) as [C|[W N]]; [|left; exact C|right; split; [exact W|intros Hc; constructor; apply N; exact Hc]].
+    destruct path as [|p0 rest]; [exact I|]. destruct Hat as (b0 & Hb0 & Hs). exists b0. split; [exact Hb0|apply hs_push; exact Hs].
+Qed.
+
+
+(** ** completeness: without warnings, everything reachable in head position was visited *)
+Lemma chk_visits n path e : forall e', hsub e e' -> snd (chk n path e) = [] -> snd (chk n path e') = [].
+Proof.
+  intros e' Hs. induction Hs as [|es x Hs IH Hx|l1 x l2 Hs IH Hn|e1 Hs IH|e1 Hs IH|e1 Hs IH|e1 Hs IH|e1 Hs IH|e1 Hs IH]; intros H0; auto.
+  - specialize (IH H0). rewrite chk_eq in IH. destruct (alt_fold_snd _ _ _ IH) as [_ B]. apply B. exact Hx.
+  - specialize (IH H0). rewrite chk_eq in IH. eapply seq_go_reach; [exact IH|].
+    intros y Hy. rewrite Forall_forall in Hn. destruct (fst (chk n path y)) eqn:E; [|reflexivity].
+    exfalso. eapply nullable_not_mc; eauto.
+  - specialize (IH H0). rewrite chk_eq in IH. exact IH.
+  - specialize (IH H0). rewrite chk_eq in IH. exact IH.
+  - specialize (IH H0). rewrite chk_eq in IH. exact IH.
+  - specialize (IH H0). rewrite chk_eq in IH. exact IH.
+  - specialize (IH H0). rewrite chk_eq in IH. exact IH.
+  - specialize (IH H0). rewrite chk_eq in IH. exact IH.
+Qed.
+
+Lemma walk_warns : forall k t, clos_trans_1n nat hstep k t ->
+  forall n path b, lookup_def g k = Some b -> snd (chk n (k :: path) b) = [] -> fuel_ok n (k :: path) ->
+  In t (k :: path) -> False.
+Proof.
+  induction 1 as [k t Hst|k k1 t Hst Hrest IH]; intros n path b Hb H0 Hf Ht.
+  - destruct Hst as (b0 & Hb0 & Hs). rewrite Hb in Hb0. inv Hb0.
+    pose proof (chk_visits n (k :: path) b0 _ Hs H0) as V. rewrite chk_eq in V.
+    destruct Hf as (_ & Hin & _). destruct (in_lookup t (Hin t Ht)) as (bt & Ebt). rewrite Ebt in V.
+    apply memb_in in Ht. rewrite Ht in V. discriminate.
+  - destruct Hst as (b0 & Hb0 & Hs). rewrite Hb in Hb0. inv Hb0.
+    pose proof (chk_visits n (k :: path) b0 _ Hs H0) as V. rewrite chk_eq in V.
+    assert (Hk1 : exists b1, lookup_def g k1 = Some b1).
+    { inversion Hrest as [y (b1 & E & _)|y z (b1 & E & _) _]; eauto. }
+    destruct Hk1 as (b1 & Eb1). rewrite Eb1 in V.
+    destruct (memb k1 (k :: path)) eqn:Em; [discriminate|].
+    destruct (fuel_step _ _ _ _ Hf Em Eb1) as (n' & -> & Hf').
+    eapply (IH n' (k :: path) b1 Eb1 V Hf'). right. exact Ht.
+Qed.
+
+Lemma flat_map_nil {A B} (f : A -> list B) l : flat_map f l = [] -> forall x, In x l -> f x = [].
+Proof.
+  induction l as [|y l IH]; intros H x Hx; [destruct Hx|]. cbn [flat_map] in H. apply app_eq_nil in H as [H1 H2].
+  destruct Hx as [<-|Hx]; auto.
+Qed.
+
+Lemma flat_map_not_nil {A B} (f : A -> list B) l : flat_map f l <> [] -> exists x, In x l /\ f x <> [].
+Proof.
+  induction l as [|y l IH]; intros H; [contradiction|]. cbn [flat_map] in H.
+  destruct (f y) eqn:E.
+  - destruct (IH H) as (x & H1 & H2). exists x. split; [right; exact H1|exact H2].
+  - exists y. split; [left; reflexivity|congruence].
+Qed.
+
+Lemma lookup_def_in m b : lookup_def g m = Some b -> exists d, In d g /\ fst d = m.
+Proof.
+  intros H. apply lookup_in in H. apply in_map_iff in H as (d & E & Hd). exists d. auto.
+Qed.
+
+Lemma fuel_top : fuel_ok (S (length g)) [].
+Proof. split; [constructor|]. split; [intros m []|]. cbn. lia. Qed.
+
+(** * the diagnostic is exact *)
+Theorem leftrec_exact : leftrec_warnings g <> [] <-> exists r, clos_trans nat hstep r r.
+Proof.
+  split.
+  - intros Hw. unfold leftrec_warnings in Hw.
+    destruct (flat_map_not_nil _ _ Hw) as (d & Hd & Hne).
+    destruct (chk_sound (S (length g)) [] (EName (fst d)) fuel_top I I) as [C|[W _]]; [exact C|contradiction].
+  - intros (r & Hc) Hw. apply clos_trans_t1n in Hc.
+    assert (Hr : exists b, lookup_def g r = Some b).
+    { inversion Hc as [y (b1 & E & _)|y z (b1 & E & _) _]; eauto. }
+    destruct Hr as (b & Eb). destruct (lookup_def_in _ _ Eb) as (d & Hd & Ed).
+    pose proof (flat_map_nil _ _ Hw d Hd) as W. cbn beta in W. rewrite Ed in W. rewrite chk_eq in W. rewrite Eb in W.
+    cbn [memb existsb] in W.
+    destruct (fuel_step _ _ _ _ fuel_top eq_refl Eb) as (n' & En & Hf'). assert (n' = length g) by lia. subst n'.
+    eapply (walk_warns r r Hc (length g) [] b Eb W Hf'). left. reflexivity.
+Qed.
+
 End LR.
